@@ -8,6 +8,12 @@
 //! proofs were valid:  peaks == from-scratch peaks of the mirrored leaf list, leaf count == its length,
 //! bag == documented fold, updated proofs == from-scratch proofs, `verify_batch_update` == (stated peaks are the
 //! from-scratch peaks after the stated mutations and appends), duplicates / out-of-range indices rejected.
+//!
+//! `mmra bhist (init;count;[peaks]) (known;[(index;leaf;[path]),…]) <step> …` -- the same history format on an accumulator
+//! with a LARGE structured leaf count (2^k-1, 2^k-j, runs of ones up to bit 62: appends carry through high bits).
+//! The harness rebuilds a sparse from-scratch forest (`c12::sparse::Sparse`) from the op line alone (peaks + the
+//! materialised leafs with their paths) and evaluates the same oracles against it; evaluated in a watchdog child.
+use super::c12::sparse::{pick_tracked, Sparse};
 use crate::util::*;
 use twenty_first::prelude::*;
 use twenty_first::util_types::merkle_tree::CpuParallel;
@@ -265,6 +271,107 @@ fn gen_history(rng: &mut Rng, out: &mut Vec<String>, target_len: usize, start_le
     out.push(line);
 }
 
+/// a history on `init(peaks, LARGE count)`: the generator's sparse forest supplies peaks and valid proofs
+fn gen_big_history(rng: &mut Rng, out: &mut Vec<String>, target_len: usize, heavy: bool) {
+    let (mut n0, mut m0) = super::c12::carry_pair(rng);
+    if !heavy {
+        // fewer peaks (every state record bags all peaks in the model)
+        let mut tries = 0;
+        while n0.count_ones() > 34 && tries < 50 {
+            (n0, m0) = super::c12::carry_pair(rng);
+            tries += 1;
+        }
+    }
+    let n0 = n0.max(1);
+    let k = rng.range(1, 4) as usize;
+    let idxs: Vec<(u64, Digest)> = pick_tracked(rng, n0, k).into_iter().map(|i| (i, rng.digest_u())).collect();
+    let mut sp = Sparse::random(rng.next(), n0, &idxs);
+    let peaks = sp.peaks();
+    let known: Vec<(u64, Digest, Vec<Digest>)> = idxs.iter().map(|(i, d)| (*i, *d, sp.path(*i))).collect();
+    let mut line = format!("mmra bhist (init;{};{}) (known;{})", n0, fmt_digests(&peaks), fmt_muts(&known));
+    for step in 0..target_len {
+        let mat: Vec<u64> = sp.leafs.keys().copied().collect();
+        let choice = if step == 0 { 0 } else { rng.below(10) };
+        match choice {
+            0..=3 => {
+                // a run of appends: to the next carry and one beyond
+                // the property's domain is < 2^63 leafs (node indices fit u64): never append beyond 2^63 - 1
+                let room = ((1u64 << 63) - 1).saturating_sub(sp.n);
+                let run = (if step == 0 { (m0 as u64).clamp(1, 6) } else { rng.range(1, 3) }).min(room);
+                for _ in 0..run {
+                    let d = rng.digest_u();
+                    line.push_str(&format!(" (a;{})", fmt_digest(&d)));
+                    sp.append(d);
+                }
+            }
+            4 | 5 => {
+                let i = *rng.pick(&mat);
+                let d = rng.digest_u();
+                let mut ap = sp.path(i);
+                let mut bad = false;
+                if rng.coin(1, 8) {
+                    corrupt(rng, &mut ap);
+                    bad = true;
+                }
+                line.push_str(&format!(" (m;{};{};{})", i, fmt_digest(&d), fmt_digests(&ap)));
+                if bad {
+                    break;
+                }
+                sp.leafs.insert(i, d);
+            }
+            6 | 7 => {
+                let mut mi: Vec<u64> = mat.iter().copied().filter(|_| rng.coin(1, 2)).collect();
+                if mi.is_empty() {
+                    mi.push(*rng.pick(&mat));
+                }
+                mi.truncate(4);
+                let muts: Vec<(u64, Digest, Vec<Digest>)> = mi.iter().map(|&i| (i, rng.digest_u(), sp.path(i))).collect();
+                let tracked: Vec<u64> = mat.iter().copied().filter(|_| rng.coin(2, 3)).take(4).collect();
+                let tps: Vec<Vec<Digest>> = tracked.iter().map(|&i| sp.path(i)).collect();
+                line.push_str(&format!(" (b;{};{};{})", fmt_paths(&tps), fmt_list_u64(&tracked), fmt_muts(&muts)));
+                for (i, d, _) in &muts {
+                    sp.leafs.insert(*i, *d);
+                }
+            }
+            _ => {
+                let mi: Vec<u64> = mat.iter().copied().filter(|_| rng.coin(1, 2)).take(3).collect();
+                let mut muts: Vec<(u64, Digest, Vec<Digest>)> = mi.iter().map(|&i| (i, rng.digest_u(), sp.path(i))).collect();
+                let room = ((1u64 << 63) - 1).saturating_sub(sp.n);
+                let apps: Vec<Digest> = (0..rng.below(4).min(room)).map(|_| rng.digest_u()).collect();
+                // the peaks after the stated mutations and appends, from a copy of the sparse forest
+                let mut after = Sparse { n: sp.n, leafs: sp.leafs.clone(), opaque: sp.opaque.clone(), rnd: sp.rnd, missing: 0 };
+                for (i, d, _) in &muts {
+                    after.leafs.insert(*i, *d);
+                }
+                for d in &apps {
+                    after.append(*d);
+                }
+                let mut np = after.peaks();
+                // opaque blocks created while evaluating `after` stay valid for `sp`
+                sp.opaque = after.opaque;
+                sp.rnd = after.rnd;
+                match rng.below(8) {
+                    0 => {
+                        if let Some(p) = np.last_mut() {
+                            *p = rng.digest_u();
+                        }
+                    }
+                    1 if !muts.is_empty() => {
+                        let m = muts[0].clone();
+                        muts.push(m);
+                    }
+                    2 if !muts.is_empty() => muts[0].0 = sp.n + rng.below(2),
+                    3 => np = sp.peaks(),
+                    4 if muts.len() >= 2 => muts.reverse(),
+                    _ => {}
+                }
+                line.push_str(&format!(" (v;{};{};{})", fmt_digests(&np), fmt_digests(&apps), fmt_muts(&muts)));
+            }
+        }
+    }
+    out.push(line);
+}
+
 pub fn gen(rng: &mut Rng, thorough: bool, out: &mut Vec<String>) {
     // bag_peaks alone for 0..=5 peaks
     for k in 0..=5 {
@@ -310,6 +417,11 @@ pub fn gen(rng: &mut Rng, thorough: bool, out: &mut Vec<String>) {
         line.push_str(&format!(" (m;0;{};[])", fmt_digest(&rng.digest_u())));
         line.push_str(&format!(" (v;{};[];[])", fmt_digests(&ps)));
         out.push(line);
+    }
+    // LARGE structured counts with materialised leafs: append across high carries, mutate, batch mutate, verify
+    for i in 0..(if thorough { 400 } else { 12 }) {
+        let len = if thorough { rng.range(3, 14) as usize } else { rng.range(3, 6) as usize };
+        gen_big_history(rng, out, len, thorough || i % 3 == 0);
     }
     // a large consistent accumulator close to 2^63 leafs: append / verify without knowing the leaves
     for count in [(1u64 << 63) - 2, (1 << 62) - 1, (1 << 40) + 1, u64::MAX >> 2] {
@@ -373,6 +485,15 @@ pub fn run_mmra(op: &str, a: &[Arg], st: &mut Stats) -> Option<Out> {
             return Some(Out::ok(format!("ok:{}", fmt_digest(&r))).with_oracle(r == bag_from_scratch(&ps), "bag_peaks is not the documented fold"));
         }
         ("hist", [_, ..]) => {}
+        ("bhist", [_, _, ..]) if !in_guarded_child() => {
+            if let Arg::Tup(v) = &a[0] {
+                if let Some(c) = v.get(1).and_then(|x| x.u64()) {
+                    st.hit(&format!("bhist:start count bits={} peaks={}", match 64 - c.leading_zeros() { 0..=16 => "0-16", 17..=31 => "17-31", 32..=33 => "32-33", 34..=48 => "34-48", _ => "49-63" }, match c.count_ones() { 0..=8 => "0-8", 9..=24 => "9-24", _ => "25-63" }));
+                }
+            }
+            return Some(guarded_out("mmra", op, a, st, "a history on MmrAccumulator::init(peaks, large count)"));
+        }
+        ("bhist", [_, _, ..]) => return run_bhist(a, st),
         _ => return None,
     }
     let mut fails: Vec<String> = vec![];
@@ -565,6 +686,238 @@ pub fn run_mmra(op: &str, a: &[Arg], st: &mut Stats) -> Option<Out> {
                     }
                     Err(_) => {
                         st.hit("verify:panic");
+                        out.push("panic".into());
+                    }
+                }
+            }
+            _ => return None,
+        }
+    }
+    let mut o = Out::ok(format!("ok:{}", out.join(" ")));
+    if let Some(f) = fails.first() {
+        o = o.with_oracle(false, f.clone());
+    }
+    Some(o)
+}
+
+// ------------------------------------------------------------------------------------------- runner, LARGE counts
+/// the same record format as `hist`; the mirror is the sparse forest rebuilt from the op line
+fn run_bhist(a: &[Arg], st: &mut Stats) -> Option<Out> {
+    let (c, ps) = match &a[0] {
+        Arg::Tup(v) if v.len() == 3 && v[0].sym() == Some("init") => (v[1].u64()?, v[2].digests()?),
+        _ => return None,
+    };
+    let known = match &a[1] {
+        Arg::Tup(v) if v.len() == 2 && v[0].sym() == Some("known") => parse_muts(&v[1])?,
+        _ => return None,
+    };
+    let mut fails: Vec<String> = vec![];
+    let mut sp: Option<Sparse> = Sparse::from_known(c, &ps, &known);
+    st.hit(if sp.is_some() { "bhist:start consistent with the materialised leafs" } else { "bhist:start NOT consistent (oracles off)" });
+    let mut acc = MmrAccumulator::init(ps, c);
+    for (i, d, p) in &known {
+        if sp.is_some() && !MmrMembershipProof::new(p.clone()).verify(*i, *d, &acc.peaks(), acc.num_leafs()) {
+            fails.push(format!("start: the fabricated proof of leaf {i} does not verify"));
+        }
+    }
+    let plain = Mirror { leafs: None };
+    plain.check(&acc, &mut fails, "start");
+    let mut out = vec![fmt_state(&acc)];
+    // peaks, count and every materialised leaf's path against the sparse forest
+    fn check_sp(sp: &mut Option<Sparse>, acc: &MmrAccumulator, fails: &mut Vec<String>, what: &str) {
+        if sp.as_ref().map(|s| s.n >= 1 << 63).unwrap_or(false) {
+            *sp = None; // outside the property's domain (< 2^63 leafs: node indices fit u64)
+        }
+        if let Some(s) = sp {
+            if acc.num_leafs() != s.n {
+                fails.push(format!("{what}: leaf count {} != {}", acc.num_leafs(), s.n));
+            }
+            if acc.peaks() != s.peaks() {
+                fails.push(format!("{what}: peaks differ from the peaks recomputed by folding"));
+            }
+            if s.missing > 0 {
+                *sp = None;
+            }
+        }
+    }
+    for (k, s) in a[2..].iter().enumerate() {
+        let Arg::Tup(v) = s else { return None };
+        let kind = v.first()?.sym()?;
+        let before = acc.clone();
+        let what = format!("step {} ({})", k, kind);
+        match (kind, v.len()) {
+            ("a", 2) => {
+                let d = v[1].digest()?;
+                let n_before = acc.num_leafs();
+                let carry_top = 64 - (n_before ^ n_before.wrapping_add(1)).leading_zeros();
+                st.hit(&format!("bhist:append carry reaches bit {}", match carry_top { 0..=16 => "0-15", 17..=31 => "16-30", 32..=33 => "31-32", 34..=48 => "33-47", _ => "48-62" }));
+                let r = std::panic::catch_unwind(std::panic::AssertUnwindSafe(|| {
+                    let mut a2 = acc.clone();
+                    let mp = a2.append(d);
+                    (a2, mp)
+                }));
+                match r {
+                    Ok((a2, mp)) => {
+                        acc = a2;
+                        if let Some(s) = &mut sp {
+                            s.append(d);
+                            if mp.authentication_path != s.path(n_before) {
+                                fails.push(format!("{what}: returned membership proof is not the path recomputed by folding"));
+                            }
+                        }
+                        if n_before < (1 << 63) - 1 && !mp.verify(n_before, d, &acc.peaks(), acc.num_leafs()) {
+                            fails.push(format!("{what}: returned membership proof does not verify"));
+                        }
+                        out.push(format!("{}{}", fmt_state(&acc), fmt_digests(&mp.authentication_path)));
+                        plain.check(&acc, &mut fails, &what);
+                        check_sp(&mut sp, &acc, &mut fails, &what);
+                    }
+                    Err(_) => {
+                        st.hit("bhist:append panic");
+                        if n_before < (1 << 63) - 1 {
+                            fails.push(format!("{what}: append panicked below 2^63 leafs"));
+                        }
+                        acc = before;
+                        out.push("panic".into());
+                    }
+                }
+            }
+            ("m", 4) => {
+                let (i, d, ap) = (v[1].u64()?, v[2].digest()?, v[3].digests()?);
+                let valid = match &mut sp {
+                    Some(s) => s.leafs.contains_key(&i) && ap == s.path(i),
+                    None => false,
+                };
+                st.hit(if valid { "bhist:mutate valid-proof" } else { "bhist:mutate invalid-or-unknown" });
+                let r = std::panic::catch_unwind(std::panic::AssertUnwindSafe(|| {
+                    let mut a2 = acc.clone();
+                    a2.mutate_leaf(LeafMutation::new(i, d, MmrMembershipProof::new(ap.clone())));
+                    a2
+                }));
+                match r {
+                    Ok(a2) => {
+                        acc = a2;
+                        if valid {
+                            sp.as_mut().unwrap().leafs.insert(i, d);
+                        } else {
+                            sp = None;
+                        }
+                        out.push(fmt_state(&acc));
+                        plain.check(&acc, &mut fails, &what);
+                        check_sp(&mut sp, &acc, &mut fails, &what);
+                    }
+                    Err(_) => {
+                        if valid {
+                            fails.push(format!("{what}: mutate_leaf panicked on a valid proof"));
+                        }
+                        acc = before;
+                        out.push("panic".into());
+                    }
+                }
+            }
+            ("b", 4) => {
+                let tps = v[1].list()?.iter().map(|p| p.digests()).collect::<Option<Vec<_>>>()?;
+                let tidx = v[2].u64s()?;
+                let muts = parse_muts(&v[3])?;
+                let midx: Vec<u64> = muts.iter().map(|m| m.0).collect();
+                let valid = match &mut sp {
+                    Some(s) => {
+                        tps.len() == tidx.len()
+                            && all_distinct(&midx)
+                            && midx.iter().all(|i| s.leafs.contains_key(i))
+                            && tidx.iter().all(|i| s.leafs.contains_key(i))
+                            && muts.iter().all(|m| m.2 == s.path(m.0))
+                            && tps.iter().zip(&tidx).all(|(p, i)| *p == s.path(*i))
+                    }
+                    None => false,
+                };
+                st.hit(&format!("bhist:batch valid={} muts={} tracked={}", valid, muts.len().min(4), tidx.len().min(4)));
+                let r = std::panic::catch_unwind(std::panic::AssertUnwindSafe(|| {
+                    let mut a2 = acc.clone();
+                    let mut mps: Vec<MmrMembershipProof> = tps.iter().map(|p| MmrMembershipProof::new(p.clone())).collect();
+                    let mods = {
+                        let mut refs: Vec<&mut MmrMembershipProof> = mps.iter_mut().collect();
+                        a2.batch_mutate_leaf_and_update_mps(&mut refs, &tidx, muts.iter().map(to_lm).collect())
+                    };
+                    (a2, mps, mods)
+                }));
+                match r {
+                    Ok((a2, mps, mods)) => {
+                        acc = a2;
+                        if valid {
+                            let s = sp.as_mut().unwrap();
+                            let old: Vec<Vec<Digest>> = tidx.iter().map(|i| s.path(*i)).collect();
+                            for m in &muts {
+                                s.leafs.insert(m.0, m.1);
+                            }
+                            for (j, (mp, i)) in mps.iter().zip(&tidx).enumerate() {
+                                let want = s.path(*i);
+                                if mp.authentication_path != want {
+                                    fails.push(format!("{what}: updated proof {j} is not the path recomputed by folding"));
+                                }
+                                if !mp.verify(*i, s.leafs[i], &acc.peaks(), acc.num_leafs()) {
+                                    fails.push(format!("{what}: updated proof {j} does not verify against the new accumulator"));
+                                }
+                                if (want != old[j]) != mods.contains(&j) {
+                                    fails.push(format!("{what}: modified-index list wrong for proof {j}"));
+                                }
+                            }
+                        } else {
+                            sp = None;
+                        }
+                        let mods64: Vec<u64> = mods.iter().map(|x| *x as u64).collect();
+                        let paths: Vec<Vec<Digest>> = mps.iter().map(|m| m.authentication_path.clone()).collect();
+                        out.push(format!("{}{}{}", fmt_state(&acc), fmt_list_u64(&mods64), fmt_paths(&paths)));
+                        plain.check(&acc, &mut fails, &what);
+                        check_sp(&mut sp, &acc, &mut fails, &what);
+                    }
+                    Err(_) => {
+                        if valid {
+                            fails.push(format!("{what}: batch mutation panicked on valid input"));
+                        }
+                        acc = before;
+                        out.push("panic".into());
+                    }
+                }
+            }
+            ("v", 4) => {
+                let np = v[1].digests()?;
+                let apps = v[2].digests()?;
+                let muts = parse_muts(&v[3])?;
+                let midx: Vec<u64> = muts.iter().map(|m| m.0).collect();
+                let r = std::panic::catch_unwind(std::panic::AssertUnwindSafe(|| {
+                    acc.verify_batch_update(&np, &apps, muts.iter().map(to_lm).collect())
+                }));
+                let dup = !all_distinct(&midx);
+                let oob = midx.iter().any(|i| *i >= acc.num_leafs());
+                match r {
+                    Ok(b) => {
+                        st.hit(&format!("bhist:verify {} dup={} oob={} muts={} apps={}", b, dup, oob, muts.len().min(3), apps.len().min(2)));
+                        if (dup || oob) && b {
+                            fails.push(format!("{what}: verify_batch_update accepted duplicate or out-of-range indices"));
+                        }
+                        if let (Some(s), false, false) = (&mut sp, dup, oob) {
+                            if s.n + (apps.len() as u64) < (1 << 63) && muts.iter().all(|m| s.leafs.contains_key(&m.0)) && muts.iter().all(|m| m.2 == s.path(m.0)) {
+                                let mut after = Sparse { n: s.n, leafs: s.leafs.clone(), opaque: s.opaque.clone(), rnd: None, missing: 0 };
+                                for m in &muts {
+                                    after.leafs.insert(m.0, m.1);
+                                }
+                                for d in &apps {
+                                    after.append(*d);
+                                }
+                                let want = after.peaks() == np;
+                                if after.missing == 0 {
+                                    st.hit(&format!("bhist:verify oracle-applies want={}", want));
+                                    if want != b {
+                                        fails.push(format!("{what}: verify_batch_update returned {b}, the peaks recomputed by folding say {want}"));
+                                    }
+                                }
+                            }
+                        }
+                        out.push(format!("v:{}", b));
+                    }
+                    Err(_) => {
+                        st.hit("bhist:verify panic");
                         out.push("panic".into());
                     }
                 }
